@@ -70,9 +70,9 @@ func same(w []int, _ int) bool { return w[0] == w[1] }
 // divisor's (the compiler divides a 32-bit literal by a narrower or wider variable and vice versa).
 func divWz(w []int, _ int) []int {
 	if w[0] == w[1] {
-		return []int{w[0]}
+		return []int{w[0], w[0] + 2}
 	}
-	return []int{w[0], w[1]}
+	return uniq([]int{w[0], w[1], maxw(w) + 2})
 }
 func anyW(w []int, _ int) bool { return true }
 func one(w []int, _ int) []int { return []int{1} }
@@ -98,7 +98,7 @@ var ops = []opDef{
 		build: bin(circuits.NewAdder),
 		ref:   func(k cs, v []*big.Int) *big.Int { return new(big.Int).Add(v[0], v[1]) }},
 	{name: "subtractor", nin: 2, ok: anyW,
-		wz:    func(w []int, _ int) []int { m := maxw(w); return uniq([]int{m, m + 1, 1}) },
+		wz:    func(w []int, _ int) []int { m := maxw(w); return uniq([]int{m, m + 1, 2 * m, 2*m + 3, 1}) },
 		build: bin(circuits.NewSubtractor),
 		ref:   func(k cs, v []*big.Int) *big.Int { return new(big.Int).Sub(v[0], v[1]) }},
 	{name: "multiplier", nin: 2, ok: anyW,
@@ -190,7 +190,7 @@ var ops = []opDef{
 		ref: func(k cs, v []*big.Int) *big.Int { return new(big.Int).And(v[0], v[1]) }},
 	{name: "lor", nin: 2, ok: func(w []int, _ int) bool { return w[0] == 1 && w[1] == 1 }, wz: one, build: bin(circuits.NewLogicalOR),
 		ref: func(k cs, v []*big.Int) *big.Int { return new(big.Int).Or(v[0], v[1]) }},
-	{name: "hamming", nin: 2, ok: func(w []int, _ int) bool { return maxw(w) >= 2 },
+	{name: "hamming", nin: 2, ok: anyW,
 		wz:    func(w []int, _ int) []int { m := maxw(w); return uniq([]int{big.NewInt(int64(m)).BitLen(), 32}) },
 		build: bin(circuits.Hamming),
 		ref: func(k cs, v []*big.Int) *big.Int {
@@ -478,7 +478,12 @@ func runCase(ctx *runner.Ctx, k cs) {
 				for _, x := range v {
 					kk.Inputs = append(kk.Inputs, x.String())
 				}
-				ctx.Violate(site+".value."+wclass(k.W), fmt.Sprintf("%s(%v) widths %v -> %d bits, target %s thr=%d extra=%d prune=%v: circuit gives %s, exact result mod 2^%d is %s",
+				vk := ".value."
+				if k.Op == "subtractor" && k.WZ > maxw(k.W)+1 && v[0].Cmp(v[1]) < 0 {
+					// a negative difference in a result wider than max+1 bits has its own key
+					vk = ".value-negative-in-wide-result."
+				}
+				ctx.Violate(site+vk+wclass(k.W), fmt.Sprintf("%s(%v) widths %v -> %d bits, target %s thr=%d extra=%d prune=%v: circuit gives %s, exact result mod 2^%d is %s",
 					k.Op, v, k.W, k.WZ, k.Target, k.Thr, k.Extra, k.Prune, got, k.WZ, want), kk)
 				bad = true
 				return
@@ -679,7 +684,7 @@ func main() {
 			"evaluations = operand tuples compared; distinct_nontrivial = circuits whose every tuple matched",
 		Assumptions: []string{
 			"signed division/modulo reference: quotient truncates toward zero, remainder is |a| mod |b| (pinned by testsuite/lang/divi.mpcl, modi.mpcl and NewIDivider's comment); divisor != 0",
-			"signed builders and dividers are driven with equal operand widths (what the type checker produces); subtractor result widths {max, max+1, 1}",
+			"signed builders and dividers are driven with equal operand widths (what the type checker produces); subtractor result widths {max, max+1, 2max, 2max+3, 1}",
 			"index reference: low ceil(log2 n) index bits, out-of-range selects 0 (NewIndex's comment)",
 		},
 		Work:           work,
